@@ -298,9 +298,10 @@ func (vc *FuncVC) bindContractVars(ct *Contract, callee *ssa.Function, bindings 
 		}
 	}
 	if callee != nil {
-		for i, fv := range callee.FreeVars {
+		names := vc.eng.freeVarNames(callee, ct, vc.w)
+		for i := range callee.FreeVars {
 			if i < len(bindings) {
-				vars[fv.Name()] = bindings[i]
+				vars[names[i]] = bindings[i]
 			}
 		}
 	}
@@ -746,6 +747,24 @@ func (vc *FuncVC) unknownFuncCall(st *State, fr *Frame, instr ssa.Instruction, c
 	var rule *CallRule
 	if inTop {
 		rule = vc.findRule("call", desc)
+		if rule == nil {
+			// a captured variable may be known to the contract under a type-bound local name
+			var fv *ssa.FreeVar
+			switch x := cc.Value.(type) {
+			case *ssa.FreeVar:
+				fv = x
+			case *ssa.UnOp:
+				fv, _ = x.X.(*ssa.FreeVar)
+			}
+			if fv != nil {
+				names := vc.eng.freeVarNames(vc.fn, vc.contract, vc.w)
+				for i, f := range vc.fn.FreeVars {
+					if f == fv {
+						rule = vc.findRule("call", "var "+names[i])
+					}
+				}
+			}
+		}
 	}
 	if rule != nil {
 		vc.ruleRequires(st, rule, site, args)
